@@ -123,6 +123,17 @@ class FsModel:
     # ---- hooks ------------------------------------------------------------------------------------------------------
     def macro_hook(self, ex, path, node, env):
         p = path.split("::")[-1]
+        if p == "format" and node.get("args"):
+            # `format!("..{name}..")`: the captured identifiers are values of the environment
+            import re as _re
+            lit = node["args"][0]
+            text = lit.get("v", lit.get("value")) if lit.get("k") == "Lit" else None
+            if isinstance(text, str):
+                names = _re.findall(r"\{([a-z_][a-z_0-9]*)\}", text)
+                if names:
+                    vals = [ex.expr({"k": "Path", "path": n, "generics": [], "qself": None, "line": node.get("line")}, env) for n in names]
+                    rest = [ex.expr(a, env) for a in node["args"][1:]]
+                    return Struct("__Fmt", {"text": text, "args": ListV(vals + rest)})
         if p == "s3_error":
             toks = node.get("tokens", "")
             code = toks.split(",")[0].strip()
@@ -564,6 +575,18 @@ def analyse(op, m, paths, n_frames):
                     frames, writes, bool(ended), bool(flushed) and flushed[-1] > last_w, late)
             if not good:
                 note("incomplete-publish:%s" % op, "%s succeeds although the published file is not the complete upload (%s)" % (op, detail), p)
+            if op in ("put_object", "upload_part"):
+                # the ETag handed back is the MD5 of exactly the published frames, in order
+                out = deref(deref(pay).fields["output"])
+                et = deref(out.fields.get("e_tag")) if isinstance(out, Struct) and "e_tag" in out.fields else None
+                want = 'hex(digest("md5"%s))' % "".join("," + w for w in writes)
+                gotk = None
+                if isinstance(et, Variant) and et.name == rsx.SOME:
+                    f = deref(et.payload[0])
+                    if isinstance(f, Struct) and f.name == "__Fmt" and f.fields["text"] == '"{md5_sum}"':
+                        gotk = vkey(f.fields["args"].elems[0])
+                if gotk != want:
+                    note("etag:%s" % op, "%s returns an ETag that is not the quoted hex MD5 of the published frames in order (%s, expected %s)" % (op, gotk, want), p)
             if op == "put_object":
                 for alg in ("crc32", "crc32c", "sha1", "sha256"):
                     t = Term("opt_" + alg)
